@@ -4,7 +4,7 @@ import os, subprocess, hashlib, shutil, struct, json, threading
 from concurrent.futures import ThreadPoolExecutor, ProcessPoolExecutor
 
 FLAGS = ['--test-skip-device', '--test-skip-self', '--no-warnings', '--test-force-order-alpha']
-SAN_ENV = {'ASAN_OPTIONS': 'detect_leaks=0:exitcode=97:abort_on_error=0:allocator_may_return_null=1:handle_abort=0',
+SAN_ENV = {'ASAN_OPTIONS': 'detect_leaks=0:exitcode=97:abort_on_error=0:allocator_may_return_null=1:handle_abort=0:soft_rss_limit_mb=500',
            'UBSAN_OPTIONS': 'print_stacktrace=1:halt_on_error=1:exitcode=98'}
 
 # ---------------------------------------------------------------------------------------
@@ -43,11 +43,19 @@ def tool_env(extra=None, sanitize=False):
     return e
 
 
+def _cap_memory():
+    # a damaged file can make the loader ask for tens of GB (wrapped run counts): keep the machine alive.  Not for the ASan build,
+    # which reserves terabytes of address space (it has soft_rss_limit_mb instead).
+    import resource
+    resource.setrlimit(resource.RLIMIT_AS, (512 << 20, 512 << 20))
+
+
 def run_tool(binary, args, cwd, env=None, timeout=60, flags=True):
     """returns (rc, output bytes); rc = 'timeout' on a hang"""
     try:
         p = subprocess.run([binary] + (FLAGS if flags else []) + list(args), cwd=cwd, stdout=subprocess.PIPE, stderr=subprocess.STDOUT,
-                           stdin=subprocess.DEVNULL, env=env, timeout=timeout)
+                           stdin=subprocess.DEVNULL, env=env, timeout=timeout,
+                           preexec_fn=None if 'asan' in os.path.basename(binary) else _cap_memory)
         return p.returncode, p.stdout
     except subprocess.TimeoutExpired as e:
         return 'timeout', (e.stdout or b'')
@@ -56,14 +64,14 @@ def run_tool(binary, args, cwd, env=None, timeout=60, flags=True):
 SAN_MARKS = (b'AddressSanitizer', b'runtime error:', b'UndefinedBehaviorSanitizer', b'LeakSanitizer', b'MemorySanitizer')
 LIBC_MARKS = (b'free():', b'malloc():', b'double free', b'corrupted', b'stack smashing', b'buffer overflow detected', b'munmap_chunk', b'realloc():')
 DIAG_MARKS = (b'content file', b'Error decoding', b'CRC', b'decoding', b'Invalid', b'Internal inconsistency', b'damaged', b'truncated',
-              b'Unexpected', b'not supported', b'newer version', b'Low memory', b'not specified', b'Conflicting')
+              b'Unexpected', b'not supported', b'newer version', b'Low memory', b'Low Memory', b'not specified', b'Conflicting')
 
 
 DIAG_CLASSES = [(b'Unexpected end of content', 'eof-in-record'), (b'without finding the expected CRC', 'no-crc-record'),
                 (b'Unexpected data after the CRC', 'data-after-crc'), (b'Error reading the CRC', 'eof-in-crc'),
                 (b'Internal inconsistency', 'internal-inconsistency(abort)'), (b'Invalid header', 'invalid-header(abort)'),
                 (b'Invalid command', 'invalid-command(abort)'), (b'newer version', 'newer-version'), (b'text content file is not supported', 'not-binary'),
-                (b'The CRC of the file is correct', 'decode-error(crc-correct)'), (b'CRC mismatch', 'crc-mismatch'), (b'Error decoding', 'decode-error')]
+                (b'Low Memory', 'allocation-refused'), (b'The CRC of the file is correct', 'decode-error(crc-correct)'), (b'CRC mismatch', 'crc-mismatch'), (b'Error decoding', 'decode-error')]
 
 
 def diag_class(out):
@@ -86,6 +94,8 @@ def judge(rc, out):
             return 'C library heap/stack corruption report (%s)' % m.decode()
     if rc == 0:
         return 'ACCEPTED: exit status 0'
+    if b'Low Memory' in out:
+        return 'unbounded allocation: the loader asked for more memory than the limit (%s)' % out[-120:].decode(errors='replace').replace('\n', ' ')
     if rc in (97, 98):
         return 'sanitizer exit code %d' % rc
     if rc < 0 and rc != -6:
@@ -151,6 +161,8 @@ SHAPES = [
     # hash size 4, split parity with uuids, a file whose name is close to PATH_MAX, zero-size files, links
     dict(name='v3_h4_split_longname', ndisk=2, npar=1, split=True, hashsize=4, history='plain', rich=True, light=True, longname=True,
          build_opts=['--test-fake-uuid'], run_opts=['--test-fake-uuid']),
+    # a file stored in TWO block runs at non-zero positions (fragmented allocation: sync a,b; delete a; add a 2-block c; sync)
+    dict(name='v2_fragmented_runs', ndisk=2, npar=1, split=False, hashsize=16, history='fragment', rich=False, light=True, fragment=True),
     # hand-encoded oldest layout: SNAPCNT1, 'm', 'P', 'n' block runs, dir, symlink (c09_fields.legacy_file)
     dict(name='v1_legacy_m_P_n', ndisk=1, npar=1, split=False, hashsize=16, history='legacy', rich=False, light=True),
     # the same with the metro hash in the 'c' and in a 'C' record (no option of the tool selects it)
@@ -190,6 +202,11 @@ def populate(root, spec, rng):
         dd = os.path.join(root, 'd%d' % (d + 1))
         os.makedirs(dd, exist_ok=True)
         if spec.get('empty_last') and d == spec['ndisk'] - 1:
+            continue
+        if spec.get('fragment'):
+            for nm in (('afile', 'bfile') if d == 0 else ('other',)):
+                k += 1
+                _wfile(os.path.join(dd, nm), bytes(rng.getrandbits(8) for _ in range(1024)), t0 + k * 1000000007)
             continue
         if spec.get('longname') and d == 1:
             # 3960 name bytes below the disk root: with "./d2/" in front still under PATH_MAX = 4096
@@ -243,6 +260,10 @@ def make_array(tool, root, spec, rng, contents=('./content',)):
         _wfile(os.path.join(root, 'd2', 'a'), bytes(rng.getrandbits(8) for _ in range(700)), t1)
         _wfile(os.path.join(root, 'd3', 'new'), bytes(rng.getrandbits(8) for _ in range(1100)), t1 + 5)
         must(['sync', '-S', '1', '-B', '1'])
+    elif h == 'fragment':
+        os.unlink(os.path.join(root, 'd1', 'afile'))
+        _wfile(os.path.join(root, 'd1', 'cfile'), bytes(rng.getrandbits(8) for _ in range(2048)), t1)
+        must(['sync'])
     elif h == 'partial':
         _wfile(os.path.join(root, 'd1', 'f0'), bytes(rng.getrandbits(8) for _ in range(2100)), t1)
         os.unlink(os.path.join(root, 'd2', 'f1'))
@@ -420,6 +441,12 @@ def _sweep_worker(job):
             rc, out = run_tool(binary, ['-C', './w%d/content' % k], root, env, timeout, flags=False)
         else:
             rc, out = run_tool(binary, ['-c', './w%d/conf' % k] + cmd, root, env, timeout)
+        if rc == 'timeout' and timeout < 20 and not (len(m) > 2 and ': 0xFFFFFFF' in m[2]):
+            # a short limit is only meant for the mutants known to loop (wrapped counts): anything else gets the full time before it is judged
+            if mode == 'noconf':
+                rc, out = run_tool(binary, ['-C', './w%d/content' % k], root, env, 60, flags=False)
+            else:
+                rc, out = run_tool(binary, ['-c', './w%d/conf' % k] + cmd, root, env, 60)
         why = judge(rc, out)
         if why is None:
             with open(cpath, 'rb') as f:
